@@ -2,6 +2,7 @@
 bit and nothing else; the number of coin draws does not depend on coin outcomes; survivors are taken with stride 2 from an
 even-length run; merge combines error parameters with the right peers."""
 import json
+import re
 from astu import C, ctxt, gt_pair, eq_const, reach, reach_txt, ctext, strip, strip_all, walk, walkp, txt, short, is_this_field, field_name, stmts_of, always_throws, functions_by, local_decls
 from vlib.core import ob
 
@@ -274,10 +275,14 @@ def req_region(facts):
                     return "?"
                 if k == "Ref" and e.get("dk") == "local":
                     return env.get(e["d"], "?")
+                if k == "Ref" and e.get("dk") == "param":
+                    return "param%d" % [pm.get("d") for pm in fn["params"]].index(e["d"]) if e.get("d") in [pm.get("d") for pm in fn["params"]] else "?"
                 if k == "Member" and e.get("isfield"):
                     return e["f"]
-                if "v" in e and k in ("Int", "Cast"):
+                if "v" in e and k in ("Int", "Cast", "Un", "Paren") and isinstance(e["v"], int):
                     return str(e["v"])
+                if k == "Un" and e.get("op") == "~" and ev(e.get("e")).isdigit():
+                    return str((~int(ev(e["e"]))) & 0xFFFFFFFF)
                 if k == "Bin":
                     a, b = ev(e["l"]), ev(e["r"])
                     return "?" if "?" in (a, b) else "(%s%s%s)" % (a, e["op"], b)
@@ -293,7 +298,41 @@ def req_region(facts):
                             env[t["d"]] = "?"
                 walk(s, v)
             ret = None
+            even = set()     # symbolic differences known to be even
+
+            def parity_fix(s):
+                """`if (((A - v) & 1) is set) ++v;` (any spelling of the bit test): afterwards A - v is even.  Returns True if s is
+                that statement (v gets a fresh symbolic value)"""
+                if s.get("k") != "If" or s.get("e") is not None:
+                    return False
+                body = stmts_of(s.get("t"))
+                if len(body) != 1 or body[0].get("k") != "Expr":
+                    return False
+                inc = strip_all(body[0].get("e") or {})
+                if not (inc.get("k") == "Un" and inc.get("op") == "++" and strip_all(inc.get("e") or {}).get("k") == "Ref"):
+                    return False
+                vd = strip_all(inc["e"])["d"]
+                tests = []
+                walk(s["c"], lambda n: tests.append(n) if n.get("k") == "Bin" and n.get("op") == "&" and any(strip_all(n[a]).get("v") == 1 for a in ("l", "r")) else None)
+                if len(tests) != 1:
+                    return False
+                ct = txt(s["c"]).replace(" ", "")
+                if ct.startswith("!") or "(0==" in ct or "==0)" in ct:
+                    return False     # the increment must happen when the bit is SET
+                t = tests[0]
+                d = strip_all(t["l"] if strip_all(t["r"]).get("v") == 1 else t["r"])
+                if not (d.get("k") == "Bin" and d.get("op") == "-" and strip_all(d["r"]).get("k") == "Ref" and strip_all(d["r"]).get("d") == vd):
+                    return False
+                a = ev(d["l"])
+                if a == "?":
+                    return False
+                fresh = "%s'" % (env.get(vd) if env.get(vd, "?") != "?" else "v")
+                env[vd] = fresh
+                even.add("(%s-%s)" % (a, fresh))
+                return True
             for s in stmts_of(fn["body"]):
+                if parity_fix(s):
+                    continue
                 if s.get("k") == "Decl":
                     for v in s["vars"]:
                         env[v["d"]] = ev(v["init"]) if v.get("init") else "?"
@@ -313,6 +352,17 @@ def req_region(facts):
             if ret is None:
                 out.append(ob("req.region", key, fn["pat"], "unrecognised", "return pair(low, high) not found", fn["qname"]))
                 continue
+            # the compacted range has an even number of items (pairs are merged into one survivor each)
+            length = ret[1] if ret[0] == "0" else "(%s-%s)" % (ret[1], ret[0])
+            m = re.fullmatch(r"\((.*)&(\d+)\)", length)
+            is_even = length in even or (m is not None and int(m.group(2)) % 2 == 0)
+            k2 = "req_compactor::compute_compaction_range:%s:even-length" % ("hra" if hra else "lra")
+            if "?" in length:
+                out.append(ob("req.region", k2, fn["pat"], "unrecognised", "with hra_=%s the length of the compacted range cannot be expressed (%s)" % (str(hra).lower(), length), fn["qname"]))
+            elif is_even:
+                out.append(ob("req.region", k2, fn["pat"], "discharged", "with hra_=%s the compacted range has the even length %s" % (str(hra).lower(), length), fn["qname"]))
+            else:
+                out.append(ob("req.region", k2, fn["pat"], "violated", "with hra_=%s the compacted range has length %s, which is not made even: compact() keeps one item of every pair, so an odd range loses the weight of one item and leaves the cached counts off by one" % (str(hra).lower(), length), fn["qname"]))
             got = ret[0] if hra else ret[1]
             want = "0" if hra else "num_items_"
             if got == want:
